@@ -14,6 +14,25 @@ CHECKS = {
             "Every recorded call of the real Display on every transport is replayed through the TLA+ controller model and the decoded "
             "framebuffer must equal the closed-form Place() picture after every call; small scopes are exhaustive "
             "(all windows of all framebuffers up to 3x3 and 4x3, all 8 orientations).", "7/C01"),
+    "C02": ("TLA+ spec + TLC trace validation (boundary-value and small-scope out-of-range programs on the real Display)",
+            "Every DrawTarget call with out-of-range arguments is executed on the real crate; the monitor requires Ok, the decoded "
+            "framebuffer to equal the picture with the outside points dropped, no cell outside the panel window and no address "
+            "outside the controller framebuffer.", "7/C02"),
+    "C03": ("TLA+ spec + TLC trace validation of draw_iter streams (distinct colour per element) against last-write-wins painting",
+            "Streams built around the row/block capacities (49/50/51, 99/100/101, stacked equal rows, shape changes, repeats) are "
+            "executed with and without the batch feature; the decoded framebuffer must equal the in-order painting.", "7/C03"),
+    "C04": ("TLA+ spec + TLC trace validation of fill_contiguous with index-coded colour streams",
+            "Every small rectangle around small displays, boundary-value rectangles and stream lengths around the area; decoded "
+            "framebuffer must carry colour k on point k; pulls from an unbounded source are bounded.", "7/C04"),
+    "C08": ("TLA+ framing automaton over the interface-level reconstruction of every drawing call (trace validation with TLC)",
+            "Each drawing call's traffic must be groups 2A p4 . 2B p4 . 2C . pixels with start<=end, end inside the framebuffer "
+            "under the current address mode, whole pixels, and no more pixels than the window for DrawTarget calls.", "7/C08"),
+    "C10": ("TLA+ spec + TLC trace validation of orientation-change histories followed by drawing",
+            "After each set_orientation the getters, the controller's address mode and the placement/clipping of every later "
+            "drawing call must agree with the last orientation set.", "7/C10"),
+    "C20": ("TLA+ counters over the interface-level reconstruction (window set-ups, SPI transactions); row capacity measured",
+            "Fills use exactly one window set-up; draw_iter uses no more set-ups than its runs split at the measured row "
+            "capacity; SPI bursts use at most floor(b/usable)+1 transactions.", "7/C20"),
 }
 
 NOT_APPLICABLE = []
